@@ -1,0 +1,162 @@
+//go:build verif
+
+// Contracts for the admin gate of nsqadmin/http.go (C17), checked by nsqvc. Comment-only file.
+// Assumed library contracts and the ghost observers of the ClusterInfo calls: .trusted/admin.spec.
+
+package nsqadmin
+
+//@ benign (*github.com/nsqio/nsq/nsqadmin.NSQAdmin).logf
+
+//@ immutable httpServer.nsqadmin, httpServer.ci
+
+// The options in force: the value most recently stored by swapOpts (atomic.Value), never nil after New.
+//@ ghost curOpts *Options
+// Number of swapOpts calls / of look-ups of an option by its configuration name.
+//@ ghost optSwaps int
+//@ ghost optReads int
+//@ func (n *NSQAdmin) getOpts() *Options
+//@   trusted
+//@   ensures result != nil && result == curOpts
+//@   modifies
+//@ func (n *NSQAdmin) swapOpts(opts *Options)
+//@   trusted
+//@   modifies
+//@   onreturn curOpts := opts
+//@   onreturn optSwaps := optSwaps + 1
+//@ func getOptByCfgName(opts interface{}, name string) (interface{}, bool)
+//@   trusted
+//@   modifies
+//@   onreturn optReads := optReads + 1
+
+//@ pred validS(s *httpServer) := (s != nil && s.nsqadmin != nil && s.ci != nil)
+
+// "carries an admin identity": the value of the configured ACL header equals, as a string, one of the
+// admin users; with no admin list everybody is an admin.
+//@ pred isAdminUser(o *Options, user string) := (exists i int :: {o.AdminUsers[i]} 0 <= i && i < len(o.AdminUsers) && o.AdminUsers[i] == user)
+//@ pred adminId(o *Options, id string) := (len(o.AdminUsers) == 0 || isAdminUser(o, id))
+
+// The identity the gate looked at: the value returned by its Header.Get (see admin.spec for why this
+// is a ghost and not an expression over req).
+//@ ghost aclIdentity string
+
+//@ func (s *httpServer) isAuthorizedAdminRequest(req *http.Request) bool
+//@   props C17
+//@   requires validS(s) && req != nil
+//@   ensures[admin-iff] result <==> (adminId(curOpts, hdrVal))
+//@   ensures[reads-acl-header] len(curOpts.AdminUsers) != 0 ==> hdrKey == curOpts.ACLHTTPHeader
+//@   modifies hdrKey, hdrVal, aclIdentity
+//@   onreturn aclIdentity := hdrVal
+//@   loop 0
+//@     invariant[none-so-far] forall k int :: {adminUsers[k]} 0 <= k && k <= rangeindex && k < len(adminUsers) ==> adminUsers[k] != user
+
+// The refusal: exactly http_api.Err{403, "FORBIDDEN"}.
+//@ pred isErr(err error, code int, text string) := (dyntype(err) == typetag("http_api.Err") && unbox(err, "http_api.Err").Code == code && unbox(err, "http_api.Err").Text == text)
+//@ pred forbidden(err error) := (isErr(err, 403, "FORBIDDEN"))
+// Nothing was sent to any nsqd / nsqlookupd and no admin action was notified since entry.
+//@ pred untouched() := (ciCalls == old(ciCalls) && adminNotifications == old(adminNotifications))
+// (the admin list is read in the entry state: the handlers do not change the options)
+//@ pred admin() := (old(adminId(curOpts, now(aclIdentity))))
+//@ pred did(op string, topic string, channel string) := (ciCalls == old(ciCalls) + 1 && ciLastOp == op && ciLastTopic == topic && ciLastChannel == channel)
+
+//@ func maybeWarnMsg(msgs []string) string
+//@   props C17
+//@   modifies
+
+// Counts the notifications; the body (builds an AdminAction and hands it to a goroutine) is not verified.
+//@ ghost adminNotifications int
+//@ func (s *httpServer) notifyAdminAction(action string, topic string, channel string, node string, req *http.Request)
+//@   trusted
+//@   modifies lastNow, hdrKey, hdrVal
+//@   onreturn adminNotifications := adminNotifications + 1
+
+//@ func (s *httpServer) deleteTopicHandler(w http.ResponseWriter, req *http.Request, ps httprouter.Params) (interface{}, error)
+//@   props C17
+//@   requires validS(s) && req != nil
+//@   ensures[not-admin-403] !admin() ==> result0 == nil && forbidden(result1)
+//@   ensures[not-admin-no-upstream] !admin() ==> untouched()
+//@   ensures[admin-carried-out] admin() ==> did("DeleteTopic", paramByName(ps, "topic"), "")
+//@   ensures[admin-not-403] admin() ==> !forbidden(result1)
+//@   ensures[notified-on-success] admin() && result1 == nil ==> adminNotifications == old(adminNotifications) + 1
+//@   modifies ciCalls, ciLastOp, ciLastTopic, ciLastChannel, adminNotifications, lastNow, hdrKey, hdrVal, aclIdentity
+
+//@ func (s *httpServer) deleteChannelHandler(w http.ResponseWriter, req *http.Request, ps httprouter.Params) (interface{}, error)
+//@   props C17
+//@   requires validS(s) && req != nil
+//@   ensures[not-admin-403] !admin() ==> result0 == nil && forbidden(result1)
+//@   ensures[not-admin-no-upstream] !admin() ==> untouched()
+//@   ensures[admin-carried-out] admin() ==> did("DeleteChannel", paramByName(ps, "topic"), paramByName(ps, "channel"))
+//@   ensures[admin-not-403] admin() ==> !forbidden(result1)
+//@   ensures[notified-on-success] admin() && result1 == nil ==> adminNotifications == old(adminNotifications) + 1
+//@   modifies ciCalls, ciLastOp, ciLastTopic, ciLastChannel, adminNotifications, lastNow, hdrKey, hdrVal, aclIdentity
+
+// The topic / channel / node come from the JSON body, so only the kind of call is pinned down here.
+//@ func (s *httpServer) tombstoneNodeForTopicHandler(w http.ResponseWriter, req *http.Request, ps httprouter.Params) (interface{}, error)
+//@   props C17
+//@   requires validS(s) && req != nil
+//@   ensures[not-admin-403] !admin() ==> result0 == nil && forbidden(result1)
+//@   ensures[not-admin-no-upstream] !admin() ==> untouched()
+//@   ensures[admin-carried-out] admin() && result1 == nil ==> ciCalls == old(ciCalls) + 1 && ciLastOp == "TombstoneNodeForTopic" && ciLastChannel == paramByName(ps, "node")
+//@   ensures[admin-not-403] admin() ==> !forbidden(result1)
+//@   ensures[at-most-one-call] ciCalls <= old(ciCalls) + 1
+//@   ensures[notified-on-success] admin() && result1 == nil ==> adminNotifications == old(adminNotifications) + 1
+//@   modifies ciCalls, ciLastOp, ciLastTopic, ciLastChannel, adminNotifications, lastNow, hdrKey, hdrVal, aclIdentity
+
+//@ func (s *httpServer) createTopicChannelHandler(w http.ResponseWriter, req *http.Request, ps httprouter.Params) (interface{}, error)
+//@   props C17
+//@   requires validS(s) && req != nil
+//@   ensures[not-admin-403] !admin() ==> result0 == nil && forbidden(result1)
+//@   ensures[not-admin-no-upstream] !admin() ==> untouched()
+//@   ensures[admin-carried-out] admin() && result1 == nil ==> ciCalls == old(ciCalls) + 1 && ciLastOp == "CreateTopicChannel"
+//@   ensures[admin-not-403] admin() ==> !forbidden(result1)
+//@   ensures[at-most-one-call] ciCalls <= old(ciCalls) + 1
+//@   ensures[notified-on-success] admin() && result1 == nil ==> adminNotifications >= old(adminNotifications) + 1
+//@   modifies ciCalls, ciLastOp, ciLastTopic, ciLastChannel, adminNotifications, lastNow, hdrKey, hdrVal, aclIdentity
+
+// pause / unpause / empty of a topic (channelName == "") or a channel.
+//@ pred actionOp(op string) := (op == "PauseTopic" || op == "UnPauseTopic" || op == "EmptyTopic")
+//@ pred actionOpCh(op string) := (op == "PauseChannel" || op == "UnPauseChannel" || op == "EmptyChannel")
+//@ func (s *httpServer) topicChannelAction(req *http.Request, topicName string, channelName string) (interface{}, error)
+//@   props C17
+//@   requires validS(s) && req != nil
+//@   ensures[not-admin-403] !admin() ==> result0 == nil && forbidden(result1)
+//@   ensures[not-admin-no-upstream] !admin() ==> untouched()
+//@   ensures[admin-carried-out] admin() && result1 == nil ==> ciCalls == old(ciCalls) + 1 && ciLastTopic == topicName && ciLastChannel == channelName && (channelName == "" ? actionOp(ciLastOp) : actionOpCh(ciLastOp))
+//@   ensures[admin-not-403] admin() ==> !forbidden(result1)
+//@   ensures[at-most-one-call] ciCalls <= old(ciCalls) + 1
+//@   ensures[notified-iff-called] adminNotifications - old(adminNotifications) == ciCalls - old(ciCalls)
+//@   modifies ciCalls, ciLastOp, ciLastTopic, ciLastChannel, adminNotifications, lastNow, hdrKey, hdrVal, aclIdentity
+
+//@ func (s *httpServer) topicActionHandler(w http.ResponseWriter, req *http.Request, ps httprouter.Params) (interface{}, error)
+//@   props C17
+//@   requires validS(s) && req != nil
+//@   ensures[not-admin-403] !admin() ==> result0 == nil && forbidden(result1)
+//@   ensures[not-admin-no-upstream] !admin() ==> untouched()
+//@   ensures[admin-carried-out] admin() && result1 == nil ==> ciCalls == old(ciCalls) + 1 && ciLastTopic == paramByName(ps, "topic") && ciLastChannel == "" && actionOp(ciLastOp)
+//@   ensures[admin-not-403] admin() ==> !forbidden(result1)
+//@   modifies ciCalls, ciLastOp, ciLastTopic, ciLastChannel, adminNotifications, lastNow, hdrKey, hdrVal, aclIdentity
+
+//@ func (s *httpServer) channelActionHandler(w http.ResponseWriter, req *http.Request, ps httprouter.Params) (interface{}, error)
+//@   props C17
+//@   requires validS(s) && req != nil
+//@   ensures[not-admin-403] !admin() ==> result0 == nil && forbidden(result1)
+//@   ensures[not-admin-no-upstream] !admin() ==> untouched()
+//@   ensures[admin-carried-out] admin() && result1 == nil ==> ciCalls == old(ciCalls) + 1 && ciLastTopic == paramByName(ps, "topic") && ciLastChannel == paramByName(ps, "channel") && (paramByName(ps, "channel") == "" ? actionOp(ciLastOp) : actionOpCh(ciLastOp))
+//@   ensures[admin-not-403] admin() ==> !forbidden(result1)
+//@   modifies ciCalls, ciLastOp, ciLastTopic, ciLastChannel, adminNotifications, lastNow, hdrKey, hdrVal, aclIdentity
+
+// ---- /config -------------------------------------------------------------------------------------
+// With a CIDR configured, the remote address (as handed to net.SplitHostPort, ghost cfgRemoteAddr) must
+// split, parse and lie inside the network; otherwise the request is refused with 400 / 403 before the
+// named option is looked up (getOptByCfgName) or the options are swapped (swapOpts).
+//@ pred addrAllowed(cidr string, a string) := (!splitFails(a) && parseIP(hostOf(a)) != nil && ipInCIDR(cidr, parseIP(hostOf(a))))
+//@ pred cfgUntouched() := (optSwaps == old(optSwaps) && optReads == old(optReads) && curOpts == old(curOpts))
+//@ func (s *httpServer) doConfig(w http.ResponseWriter, req *http.Request, ps httprouter.Params) (interface{}, error)
+//@   props C17
+//@   requires validS(s) && req != nil
+//@   requires[cidr-validated-at-startup] curOpts.AllowConfigFromCIDR != "" ==> cidrOK(curOpts.AllowConfigFromCIDR)
+//@   ensures[cidr-refused] old(curOpts.AllowConfigFromCIDR) != "" && !addrAllowed(old(curOpts.AllowConfigFromCIDR), cfgRemoteAddr) ==> result0 == nil && (isErr(result1, 400, "INVALID_REMOTE_ADDR") || forbidden(result1)) && cfgUntouched()
+//@   ensures[outside-403] old(curOpts.AllowConfigFromCIDR) != "" && !splitFails(cfgRemoteAddr) && parseIP(hostOf(cfgRemoteAddr)) != nil && !ipInCIDR(old(curOpts.AllowConfigFromCIDR), parseIP(hostOf(cfgRemoteAddr))) ==> forbidden(result1)
+//@   ensures[allowed-not-403] old(curOpts.AllowConfigFromCIDR) == "" || addrAllowed(old(curOpts.AllowConfigFromCIDR), cfgRemoteAddr) ==> !forbidden(result1)
+//@   ensures[cidr-kept] curOpts.AllowConfigFromCIDR == old(curOpts.AllowConfigFromCIDR)
+//@   ensures[success-read] result1 == nil ==> optReads == old(optReads) + 1
+//@   modifies curOpts, optSwaps, optReads, cfgRemoteAddr, deref([]string), deref(map[string]any)
